@@ -812,12 +812,15 @@ Fixpoint cloop_run (k : nat) (n : node) (idx : nat) (v lim : Z) (c : ctx) : ctx 
             | None =>
                 (* default: ctx.Err = ErrWrongLoopOp; the counter is not stepped *)
                 let c := w_cerr c (Some EWrongLoopOp) in
+                let c := ctx_set c (loopCnt n) (VLC idx) InsStatic in
                 match br with
                 | BBreak | BLazy => dec_brk c
                 | _ => cloop_run k' n idx v lim c
                 end
             | Some v' =>
                 let c := w_bufLC c (set_nth_l (bufLC c) idx (match step64 (loopCntOp n) (nth idx (bufLC c) 0%Z) with Some x => x | None => 0%Z end)) in
+                (* the counter variable is pointed at the counter again (the storage may have moved) *)
+                let c := ctx_set c (loopCnt n) (VLC idx) InsStatic in
                 match br with
                 | BBreak | BLazy => dec_brk c
                 | _ => cloop_run k' n idx v' lim c
